@@ -31,6 +31,7 @@ type Xlat struct {
 	loopHdrCount map[string]int
 	lockstep bool
 	qn int
+	view string // property view: clauses tagged for other properties are dropped
 	typeTags map[string]int
 	entryMeasure *Term
 	specInfos map[string]*specFnInfo
